@@ -19,8 +19,15 @@ type fakeRedis struct {
 	nowMs    func() int64
 	data     map[string]fakeEntry
 	failNext int // inject an error into the n-th next command (1 = next), 0 = none
-	Log      []string
-	Fired    int
+	// ScanPage > 0: SCAN hands out the matching keys that many at a time (a server may return any number of elements per call; real
+	// servers default to about 10); the cursor names a snapshot taken by the call with cursor 0, so that keys present during the
+	// whole iteration are all returned whatever is deleted meanwhile - the guarantee SCAN gives
+	ScanPage  int
+	snaps     map[uint64][]string
+	lastSnap  uint64
+	ScanPages int // pages handed out with a non-zero cursor
+	Log       []string
+	Fired     int
 }
 
 type fakeEntry struct {
@@ -176,7 +183,39 @@ func (f *fakeRedis) ProcessHook(next redis.ProcessHook) redis.ProcessHook {
 				}
 			}
 			sort.Strings(keys)
-			cmd.(*redis.ScanCmd).SetVal(keys, 0)
+			if f.ScanPage <= 0 {
+				cmd.(*redis.ScanCmd).SetVal(keys, 0)
+				break
+			}
+			cur := uint64(i64(args[1]))
+			var snap []string
+			var id, off uint64
+			if cur == 0 {
+				f.lastSnap++
+				id = f.lastSnap
+				if f.snaps == nil {
+					f.snaps = map[uint64][]string{}
+				}
+				f.snaps[id] = keys
+				snap = keys
+			} else {
+				id, off = cur>>20, cur&(1<<20-1)
+				snap = f.snaps[id]
+				f.ScanPages++
+			}
+			end := off + uint64(f.ScanPage)
+			next := id<<20 | end
+			if end >= uint64(len(snap)) {
+				end, next = uint64(len(snap)), 0
+				delete(f.snaps, id)
+			}
+			var page []string
+			for _, k := range snap[off:end] {
+				if _, ok := f.live(k); ok {
+					page = append(page, k)
+				}
+			}
+			cmd.(*redis.ScanCmd).SetVal(page, next)
 		default:
 			err := fmt.Errorf("fakeredis: unsupported command %q", name)
 			cmd.SetErr(err)
